@@ -23,6 +23,31 @@ func isZeroStructStore(st *ssa.Store) bool {
 	return isStruct
 }
 
+// storesSubStructWith: st assigns, as a whole, a struct-typed field of the object recv points to that
+// holds a field called fld (`rv.oneHit = oneHit{}` for the tag inside the embedded oneHit).
+func storesSubStructWith(st *ssa.Store, recv ssa.Value, fld string) bool {
+	fa, ok := st.Addr.(*ssa.FieldAddr)
+	if !ok || root(fa.X) != recv {
+		return false
+	}
+	inner, ok := derefType(fa.Type()).Underlying().(*types.Struct)
+	if !ok {
+		return false
+	}
+	if _, whole := wholeStructStore(st); !whole {
+		// a copy of another object's sub-struct (`rv.oneHit = p.oneHit`) assigns every field too
+		if _, isLoad := st.Val.(*ssa.UnOp); !isLoad {
+			return false
+		}
+	}
+	for j := 0; j < inner.NumFields(); j++ {
+		if inner.Field(j).Name() == fld {
+			return true
+		}
+	}
+	return false
+}
+
 // mustStoreField: on every path of fn to every return, field `fld` of the
 // struct its receiver (param 0) points to is stored (directly, by a whole
 // struct store, or by a callee on the same receiver).
@@ -38,6 +63,9 @@ func (p *Program) mustStoreField(fn *ssa.Function, sn, fld string, depth int) bo
 				return []uint64{ev | 1}
 			}
 			if x.Addr == ssa.Value(recv) {
+				return []uint64{ev | 1}
+			}
+			if storesSubStructWith(x, recv, fld) {
 				return []uint64{ev | 1}
 			}
 		case ssa.CallInstruction:
@@ -214,6 +242,9 @@ func ruleR11() *Rule {
 						return []uint64{ev | 1}
 					}
 					if x.Addr == ssa.Value(recv) {
+						return []uint64{ev | 1}
+					}
+					if storesSubStructWith(x, recv, tag) {
 						return []uint64{ev | 1}
 					}
 				case ssa.CallInstruction:
